@@ -1242,4 +1242,86 @@ theorem mem_model_jacobian (J : SensFn) (m : ModelData) (uniq : List String) (hi
   rw [hc, getLocalParams_mkCondition _ _ _ (hin d hdm)]
 
 
+theorem dirty_withData (F : Fit) (pre post : List ModelData) (m : ModelData) (d : Data) :
+    Fit.dirty { F with models := withData pre m post d } = true := by
+  simp [Fit.dirty, withData]
+
+
+/-! ### the length of the residual vector -/
+
+theorem nsum_map_zero {α} (l : List α) : (l.map fun _ => (0 : Nat)).sum = 0 := by
+  induction l with
+  | nil => rfl
+  | cons a as ih => simp only [List.map_cons, List.sum_cons, ih]
+
+theorem nsum_map_add {α} (l : List α) (f g : α → Nat) :
+    (l.map fun a => f a + g a).sum = (l.map f).sum + (l.map g).sum := by
+  induction l with
+  | nil => simp
+  | cons a as ih => simp only [List.map_cons, List.sum_cons, ih]; omega
+
+theorem nsum_range_ite (n k c : Nat) (hk : k < n) :
+    ((List.range n).map fun ci => if k = ci then c else 0).sum = c := by
+  induction n with
+  | zero => omega
+  | succ n ih =>
+    rw [List.range_succ, List.map_append, List.sum_append]
+    by_cases h : k = n
+    · subst h
+      have : ((List.range k).map fun ci => if k = ci then c else 0) = (List.range k).map fun _ => (0 : Nat) := by
+        apply List.map_congr_left
+        intro ci hci
+        have := List.mem_range.mp hci
+        simp [show k ≠ ci by omega]
+      rw [this, nsum_map_zero]; simp
+    · rw [ih (by omega)]; simp [h]
+
+theorem nsum_by_key {α} (l : List α) (k : α → Nat) (n : Nat) (h : α → Nat) (hk : ∀ a ∈ l, k a < n) :
+    ((List.range n).map fun ci => ((l.filter fun a => k a == ci).map h).sum).sum = (l.map h).sum := by
+  induction l with
+  | nil => simp only [List.filter_nil, List.map_nil, List.sum_nil]; exact nsum_map_zero _
+  | cons a as ih =>
+    have e : (fun ci => (((a :: as).filter fun a' => k a' == ci).map h).sum) =
+        fun ci => (if k a = ci then h a else 0) + ((as.filter fun a' => k a' == ci).map h).sum := by
+      funext ci
+      by_cases hc : k a = ci
+      · simp [hc]
+      · simp [hc]
+    rw [e, nsum_map_add, nsum_range_ite n (k a) (h a) (hk a List.mem_cons_self),
+      ih (fun a' ha' => hk a' (List.mem_cons_of_mem _ ha'))]
+    simp
+
+/-- a dataset holds exactly `npoints` sample pairs (what `add_data` establishes: `add_data_holds`) -/
+def DataOk (d : Data) : Prop := d.x.length = d.npoints ∧ d.y.length = d.npoints
+
+theorem dataResidual_length (f : ModelFn) (p : List Rat) (d : Data) (h : DataOk d) :
+    (dataResidual f p d).length = d.npoints := by
+  unfold dataResidual
+  rw [List.length_zipWith, h.1, h.2, Nat.min_self]
+
+theorem length_residualOf_filterMap (f : ModelFn) (uniq : List String) (g : List Rat) (gs : List (List Data))
+    (hok : ∀ grp ∈ gs, ∀ d ∈ grp, DataOk d) :
+    (residualOf (gs.filterMap fun grp => match grp with
+      | [] => none
+      | r :: _ => some (mkCondition r.trans uniq, grp)) f g).length =
+      (gs.map fun grp => (grp.map (·.npoints)).sum).sum := by
+  induction gs with
+  | nil => simp [residualOf]
+  | cons grp gs ih =>
+    have ih' := ih (fun g' hg' => hok g' (List.mem_cons_of_mem _ hg'))
+    cases grp with
+    | nil =>
+      simp only [List.filterMap_cons, List.map_cons, List.sum_cons, List.map_nil, List.sum_nil, Nat.zero_add]
+      exact ih'
+    | cons r rest =>
+      simp only [List.filterMap_cons, List.map_cons, List.sum_cons]
+      unfold residualOf at ih' ⊢
+      rw [List.flatMap_cons, List.length_append, ih', List.length_flatMap]
+      congr 1
+      have : ∀ d ∈ r :: rest, (dataResidual f (getLocalParams (mkCondition r.trans uniq) g) d).length = d.npoints :=
+        fun d hd => dataResidual_length _ _ d (hok _ List.mem_cons_self d hd)
+      rw [List.map_congr_left this]
+      simp
+
+
 end Verif.C14
